@@ -23,7 +23,7 @@ from .codegen import (
 )
 from .error import InvalidTypes
 from .origin import NO_ORIGIN, Origin
-from .serialize import TYPE_KEY, DataClassSerializeMixin
+from .serialize import TYPE_KEY, DataClassSerializeMixin, SerializationOption
 from .types import get_cls_all_fields, get_cls_child_fields, get_cls_props
 from .typing import Field, FieldTypeInfo, check_annotations, is_instance
 
@@ -320,22 +320,25 @@ class ASTNode(DataClassSerializeMixin):
         # Run first, otherwise _children will be dropped from the output
         out = super(ASTNode, self).__post_serialize__(d)
 
-        if (
-            self._get_serialization_options().get(AST_SERIALIZE_DIALECT_KEY)
-            == ASTSerializationDialects.AST_EXPLORER
-        ):
+        options = self._get_serialization_options()
+
+        if options.get(AST_SERIALIZE_DIALECT_KEY) == ASTSerializationDialects.AST_EXPLORER:
             out["_children"] = []
             out["_children"].extend([f.name for f in get_cls_child_fields(self.__class__)])
 
-        if (
-            self._get_serialization_options().get(AST_SERIALIZE_DIALECT_KEY)
-            == ASTSerializationDialects.AST_TEST
-        ):
-            out.get("origin", {})["source"] = {
-                TYPE_KEY: "Source",
-                "source_uri": "",
-                "source_type": "",
-            }
+            if options.get(SerializationOption.SORT_KEYS, False):
+                # The added key must honor key sorting too (type tag stays first)
+                out = {k: out[k] for k in sorted(out, key=lambda k: (k != TYPE_KEY, k))}
+
+        if options.get(AST_SERIALIZE_DIALECT_KEY) == ASTSerializationDialects.AST_TEST:
+            # The injected mapping must honor the same options as the real ones:
+            # keys in sorted order, type tag first and only if not suppressed
+            test_source = {"source_type": "", "source_uri": ""}
+
+            if not options.get(SerializationOption.SKIP_CLASS, False):
+                test_source = {TYPE_KEY: "Source", **test_source}
+
+            out.get("origin", {})["source"] = test_source
 
         return out
 
